@@ -432,8 +432,88 @@ def k2b_pairing(src, index):
                   f"{rc.__name__}: response header form does not follow FLEXIBLE_VERSION")
 
 
+# ------------------------------------------------------------------------------------------
+# K3: builders reject what the negotiated version cannot express
+
+
+def _k3_cases():
+    from aiokafka.protocol.admin import (CreateTopicsRequest, DeleteRecordsRequest, DescribeConfigsRequest,
+                                         DescribeGroupsRequest)
+    from aiokafka.protocol.commit import OffsetFetchRequest
+    from aiokafka.protocol.coordination import FindCoordinatorRequest
+    from aiokafka.protocol.fetch import FetchRequest
+    from aiokafka.protocol.offset import OffsetRequest
+    from aiokafka.protocol.produce import ProduceRequest
+    # (name, factory(value), values, field carrying the value (or None), first version that can express it,
+    #  predicate "the value changes the request's meaning")
+    return [
+        ("Produce.transactional_id", lambda v: ProduceRequest(v, 1, 100, [("t", [(0, b"")])]), [None, "tx"],
+         "transactional_id", 3, lambda v: v is not None),
+        ("Fetch.isolation_level", lambda v: FetchRequest(100, 1, 1000, v, [("t", [(0, 5, 100)])]), [0, 1],
+         "isolation_level", 4, lambda v: v == 1),
+        ("ListOffsets.isolation_level(latest)", lambda v: OffsetRequest(-1, v, [("t", [(0, -1)])]), [0, 1],
+         "isolation_level", 2, lambda v: v == 1),
+        ("ListOffsets.isolation_level(earliest)", lambda v: OffsetRequest(-1, v, [("t", [(0, -2)])]), [0, 1],
+         "isolation_level", 2, lambda v: v == 1),
+        ("ListOffsets.timestamp_search", lambda v: OffsetRequest(-1, 0, [("t", [(0, v)])]), [-1, -2, 12345, 0],
+         None, 1, lambda v: v >= 0),
+        ("FindCoordinator.coordinator_type", lambda v: FindCoordinatorRequest("k", v), [0, 1],
+         "coordinator_type", 1, lambda v: v == 1),
+        ("OffsetFetch.partitions", lambda v: OffsetFetchRequest("g", v), [[("t", [0])], None],
+         "topics", 2, lambda v: v is None),
+        ("DescribeGroups.include_authorized_operations", lambda v: DescribeGroupsRequest(["g"], v), [False, True],
+         "include_authorized_operations", 3, lambda v: v is True),
+        ("DescribeConfigs.include_synonyms", lambda v: DescribeConfigsRequest([(2, "t", None)], v), [False, True],
+         "include_synonyms", 1, lambda v: v is True),
+        ("DeleteRecords.tags", lambda v: DeleteRecordsRequest([("t", [(0, 5)])], 1000, v), [None, {1: b"x"}],
+         "tags", 2, lambda v: v is not None),
+    ]
+
+
+def k3_builders(src, case_index):
+    name, factory, values, field, first, meaningful = _k3_cases()[case_index]
+    value = values[src.choice("value", len(values))]
+    try:
+        req = factory(value)
+    except TypeError as e:
+        src.check(False, f"{name}: harness could not construct the request ({e}): constructor signature changed")
+        return
+    versions = [c.API_VERSION for c in type(req)._CLASSES]
+    v = versions[src.choice("version", len(versions))]
+    try:
+        built = req.prepare({type(req).API_KEY: (v, v)})
+    except IncompatibleBrokerVersion:
+        ok = meaningful(value) and v < first
+        if src.twin:
+            ok = not ok
+        src.check(ok, f"{name}={value!r}: rejected at v{v} although that version can express it (or the value is the default)")
+        return
+    src.check(built.API_VERSION == v, f"{name}: built v{built.API_VERSION} for a broker that only speaks v{v}")
+    if meaningful(value) and v < first:
+        src.check(False, f"{name}={value!r} silently dropped: v{v} cannot express it but no IncompatibleBrokerVersion was raised",
+                  version=v)
+        return
+    if v >= first and field in built.SCHEMA.names and field not in ("topics", "tags"):
+        src.check(built.get_item(field) == value, f"{name}: v{v} struct does not carry the value in '{field}'",
+                  got=built.get_item(field), want=value)
+    # the struct encodes and decodes back
+    try:
+        raw = built.encode()
+        back = type(built).decode(raw)
+        src.check(back == built or name.startswith("Produce"), f"{name}: v{v} struct does not round-trip through its own schema")
+    except Exception as e:  # noqa: BLE001
+        src.check(False, f"{name}: v{v} struct failed to encode/decode: {type(e).__name__}: {e}")
+
+
 def harnesses(tier):
     hs = []
+    for i, case in enumerate(_k3_cases()):
+        hs.append(Harness(name=f"K3_builder_{case[0].replace('.', '_').replace('(', '_').replace(')', '')}", fn=k3_builders,
+                          params={"case_index": i}, functions=[Request.prepare], shape="K",
+                          symbolic_vars="finite-domain choices: parameter value (default / meaning-changing), every client version of the request",
+                          bounds={"values": [repr(v) for v in case[2]]},
+                          note="finite walk over versions x values against a hand-written map of which version can express which parameter",
+                          twin_max_paths=40))
     for kind in _FIXED:
         hs.append(Harness(name=f"K1_fixed_{kind}", fn=k1_fixed, params={"kind": kind},
                           functions=[_FIXED[kind][0].encode, _FIXED[kind][0].decode], shape="K",
